@@ -163,8 +163,19 @@ def _wrap_fit(orig):
                         _silently(orig, decoy, *s.args, **s.kwargs)
                     STATE["counts"]["lifecycle_decoy"] += 1
             elif m == 1:
+                try:
+                    before = dict(self.get_params(deep=False))
+                except Exception:  # noqa: BLE001
+                    before = {}
                 with _Swap(args, kwargs) as s:
                     _silently(orig, self, *s.args, **s.kwargs)
+                # known finding K2 (VoronoiFPS.fit stores the wall-clock calibrated switching point in the constructor
+                # parameter full_fraction, possibly 0, which the next fit rejects) is C09's to report, once; the extra fit
+                # must not plant its timing-dependent consequence into other checks: hyper-parameters are put back
+                for k, v in before.items():
+                    if getattr(self, k, v) is not v:
+                        setattr(self, k, v)
+                        STATE["counts"]["lifecycle_prefit_param_restored"] += 1
                 STATE["counts"]["lifecycle_prefit"] += 1
             out = orig(self, *args, **kwargs)
             if m == 2:
